@@ -414,6 +414,26 @@ func c04Eval(c *Config, cs C04Case) string {
 		hd.Length = uint32(20 + len(body))
 		wire := append(refcodec.EncodeHeader(hd), body...)
 		m, derr := diam.ReadMessage(bytes.NewReader(wire), c.A.D.P)
+		// the command flags of the message header (request, answer, error answer, proxiable / re-
+		// transmitted variants) have no say in where AVPs begin and end: same verdict, same AVPs
+		for _, fl := range []uint8{0x00, 0x20, 0x60, 0x80, 0xC0, 0x30, 0xF0} {
+			if fl == hd.Flags {
+				continue
+			}
+			h2 := hd
+			h2.Flags = fl
+			m2, e2 := diam.ReadMessage(bytes.NewReader(append(refcodec.EncodeHeader(h2), body...)), c.A.D.P)
+			switch {
+			case (e2 == nil) != (derr == nil):
+				return fmt.Sprintf("with command flags %#x the body is read with result %v, with command flags %#x with result %v: the header's flags changed how the AVPs are framed", hd.Flags, derr, fl, e2)
+			case e2 == nil:
+				b1, _ := m.Serialize()
+				b2, _ := m2.Serialize()
+				if len(m.AVP) != len(m2.AVP) || len(b1) != len(b2) || !bytes.Equal(b1[20:], b2[20:]) {
+					return fmt.Sprintf("with command flags %#x the body decodes to %d AVPs, with command flags %#x to %d (or to other AVPs)", hd.Flags, len(m.AVP), fl, len(m2.AVP))
+				}
+			}
+		}
 		if ferr != nil {
 			if derr == nil {
 				return fmt.Sprintf("the reference framer rejects the body (%v) but the decoder accepts it and reports %d AVPs", ferr, len(m.AVP))
@@ -577,7 +597,7 @@ func runC04(ctx *ev.Ctx) {
 			ctx.Report("", generalise(what), what+" | case: "+mc.Desc(), mc)
 		}
 	})
-	ctx.Rule += " Leaves and vendor-less groups sent with the V flag and a Vendor-Id field of zero (12-byte header), at top level and inside a group. Groups defined by different applications of the message's parent chain (two per application) nested in each other to depth 3 in both directions. The code of every vendor-less Grouped AVP also under a foreign vendor id (a leaf), directly after / before / inside the real group. Wide containers: a grouped AVP behind 0..257 sibling members (counts around 16, 32, 64 and 256), at top level, inside a group and two levels down. Every accepted body is read a second time overlapping with a complete read from another source, after an oversize message. Every top-level record of every accepted body is also decoded with the exported AVP.DecodeFromBytes into ONE AVP value that held a vendor-specific AVP first and then every earlier record, and compared with a fresh decode of the same bytes."
+	ctx.Rule += " Every body is read under seven further command-flag bytes of the message header (answer, error answer, proxiable, retransmitted, reserved bits): same verdict and same AVPs. Leaves and vendor-less groups sent with the V flag and a Vendor-Id field of zero (12-byte header), at top level and inside a group. Groups defined by different applications of the message's parent chain (two per application) nested in each other to depth 3 in both directions. The code of every vendor-less Grouped AVP also under a foreign vendor id (a leaf), directly after / before / inside the real group. Wide containers: a grouped AVP behind 0..257 sibling members (counts around 16, 32, 64 and 256), at top level, inside a group and two levels down. Every accepted body is read a second time overlapping with a complete read from another source, after an oversize message. Every top-level record of every accepted body is also decoded with the exported AVP.DecodeFromBytes into ONE AVP value that held a vendor-specific AVP first and then every earlier record, and compared with a fresh decode of the same bytes."
 	ctx.Assume = []string{"reference framer (refcodec.Frame) walks by pad4(declared length) only", "a by-Length decoder accepts a sequence iff it accepts each record on its own (used to tell a legitimate value rejection from a framing error)"}
 }
 
